@@ -18,7 +18,7 @@ fn tags_of(clause: &str) -> Vec<&'static str> {
         "st.get_version_by_parent.post" => vec!["C13", "C01", "C07", "C08", "C06", "C09", "C18"],
         "st.get_version.post" => vec!["C13", "C10", "C11", "C09", "C07", "C18"],
         "st.add_version.post" => vec!["C13", "C01", "C02", "C06", "C07", "C12"],
-        "st.frame" => vec!["C13", "C09"],
+        "st.frame" => vec!["C13", "C09", "C12", "C07", "C11"],
         "st.commit" => vec!["C13", "C03", "C05", "C07"],
         "st.drop" => vec!["C13", "C03", "C05", "C18"],
         "st.reopen" => vec!["C13", "C07"],
